@@ -10,7 +10,9 @@ package main
 import (
 	"encoding/json"
 	"fmt"
+	"math/big"
 	"math/rand"
+	"sort"
 	"strings"
 
 	"golang.org/x/perf/benchfmt"
@@ -70,6 +72,12 @@ func famProjection(mode string, args []string) error {
 		if err := json.Unmarshal(raw, &c); err != nil {
 			return fail("badcase", "%v", err)
 		}
+		if focus == "c09" && !prNumScaleDone {
+			prNumScaleDone = true
+			if v := prNumAtScale(); !v.OK {
+				return v
+			}
+		}
 		v := prReplay(&c, focus)
 		if !v.OK && focus == "c09" && !strings.HasPrefix(v.Signature, "less") && v.Signature != "sortkeys" {
 			// key identity / extraction trouble is property C08's business
@@ -79,7 +87,70 @@ func famProjection(mode string, args []string) error {
 	})
 }
 
-func prBuildResult(r *prRes, i int, named map[string]bool) (*benchfmt.Result, error) {
+// The padded variant blows a model behaviour up to the sizes where the code's fixed-width
+// tricks end: every result carries prNPad more file-configuration keys (constant values,
+// named by no projection) in front of the model's, so that the model's keys sit in row slots
+// and flattened-field positions beyond 64, and the parser has parsed a projection naming
+// prNPad... sub-name keys (present in no name) before the model's expressions, so that the
+// model's /x is far down the list of named sub-name keys.  Constant extra fields change
+// neither key identity nor order; the expected field lists and values are the specification's
+// with the pads inserted where the .config group starts.
+const prNPad = 70
+
+func prPadName(j int) string { return fmt.Sprintf("pad%02d", j) }
+
+// prGroupStart returns the index in the flattened field list at which the .config group of
+// projection id begins (-1: the projection has no .config group); anyConfig says whether some
+// expression of the case claims .config (then the residue has no group).
+func prGroupStart(id string, anyConfig bool) int {
+	if id == "residue" {
+		if anyConfig {
+			return -1
+		}
+		return 0
+	}
+	for i, f := range strings.Split(prMenu[id], ",") {
+		if f == ".config" || strings.HasPrefix(f, ".config@") {
+			return i
+		}
+	}
+	return -1
+}
+
+func prPad(c *prCase) {
+	anyConfig := false
+	for _, p := range c.Proj {
+		if p.ID != "residue" && prGroupStart(p.ID, false) >= 0 {
+			anyConfig = true
+		}
+	}
+	for pi := range c.Proj {
+		p := &c.Proj[pi]
+		gi := prGroupStart(p.ID, anyConfig)
+		seen := false
+		for _, k := range p.KeyOf {
+			seen = seen || k != 0
+		}
+		if gi < 0 || !seen {
+			continue
+		}
+		ins := func(list []string, fill func(j int) string) []string {
+			out := append([]string(nil), list[:gi]...)
+			for j := 0; j < prNPad; j++ {
+				out = append(out, fill(j))
+			}
+			return append(out, list[gi:]...)
+		}
+		p.Flat = ins(p.Flat, prPadName)
+		for i := range p.Vals {
+			if p.Vals[i] != nil {
+				p.Vals[i] = ins(p.Vals[i], func(int) string { return "p" })
+			}
+		}
+	}
+}
+
+func prBuildResult(r *prRes, i int, named map[string]bool, padded bool) (*benchfmt.Result, error) {
 	cfg, err := fsMapExpect(r.Cfg)
 	if err != nil {
 		return nil, err
@@ -91,6 +162,11 @@ func prBuildResult(r *prRes, i int, named map[string]bool) (*benchfmt.Result, er
 	res := &benchfmt.Result{}
 	// tool-internal configuration must never show up in .config
 	res.Config = append(res.Config, benchfmt.Config{Key: ".file", Value: []byte(fmt.Sprintf("f%d", i)), File: false})
+	if padded {
+		for j := 0; j < prNPad; j++ {
+			res.Config = append(res.Config, benchfmt.Config{Key: prPadName(j), Value: []byte("p"), File: true})
+		}
+	}
 	for _, k := range keys {
 		if v, ok := cfg[k]; ok {
 			res.Config = append(res.Config, benchfmt.Config{Key: k, Value: []byte(v), File: true})
@@ -152,6 +228,17 @@ func prReplay(c *prCase, focus string) Verdict {
 		prDashBases(c)
 	}
 	var parser benchproc.ProjectionParser
+	padded := c.ID%5 == 4
+	if padded {
+		prPad(c)
+		var subs []string
+		for j := 0; j < 12; j++ {
+			subs = append(subs, fmt.Sprintf("/sub%c", 'a'+j))
+		}
+		if _, err := parser.Parse(strings.Join(subs, ","), nil); err != nil {
+			return fail("parse-error", "Parse(%q): %v", strings.Join(subs, ","), err)
+		}
+	}
 	projs := make([]*benchproc.Projection, len(c.Proj))
 	filters := make([]*benchproc.Filter, len(c.Proj))
 	unitFields := make([]*benchproc.Field, len(c.Proj))
@@ -215,7 +302,7 @@ func prReplay(c *prCase, focus string) Verdict {
 	}
 	results := make([]*benchfmt.Result, len(c.Stream))
 	for i := range c.Stream {
-		r, err := prBuildResult(&c.Stream[i], i, named)
+		r, err := prBuildResult(&c.Stream[i], i, named, padded)
 		if err != nil {
 			return fail("badcase", "%v", err)
 		}
@@ -280,7 +367,9 @@ func prReplay(c *prCase, focus string) Verdict {
 	}
 	// field lists and values are compared at the end (fields grow while projecting)
 	for pi, p := range c.Proj {
-		flat := projs[pi].FlattenedFields()
+		// (a private copy: the harness's expectations must not move if the code under test
+		// scribbles over the list it handed out)
+		flat := append([]*benchproc.Field(nil), projs[pi].FlattenedFields()...)
 		var names []string
 		for _, f := range flat {
 			names = append(names, f.Name)
@@ -348,15 +437,45 @@ func prReplay(c *prCase, focus string) Verdict {
 				}
 			}
 		}
+		// ... and of every pair (of a sample of pairs when there are many): what a caller asks
+		// for a table cell's keys, long before other keys are compared or sorted
+		valsOf := map[benchproc.Key][]string{}
+		for i := range results {
+			if p.KeyOf[i] != 0 {
+				valsOf[keys[p.KeyOf[i]-1]] = p.Vals[i]
+			}
+		}
+		for a := 0; a < n; a++ {
+			for b := a + 1; b < n; b++ {
+				if n > 5 && rng.Intn(n) > 2 {
+					continue
+				}
+				var want []string
+				for j := range flat {
+					if valsOf[keys[a]][j] != valsOf[keys[b]][j] {
+						want = append(want, flat[j].Name)
+					}
+				}
+				var got []string
+				for _, f := range benchproc.NonSingularFields([]benchproc.Key{keys[a], keys[b]}) {
+					got = append(got, f.Name)
+				}
+				sort.Strings(want)
+				sort.Strings(got)
+				if strings.Join(got, "|") != strings.Join(want, "|") && focus != "c09" {
+					return fail("nonsingular", "projection %s: NonSingularFields of the pair (%s), (%s) = %v, want %v", p.ID, keys[a], keys[b], got, want)
+				}
+			}
+		}
 		gotNS := map[string]bool{}
 		for _, f := range benchproc.NonSingularFields(keys) {
 			gotNS[f.Name] = true
 		}
-		if len(gotNS) != len(wantNS) {
+		if len(gotNS) != len(wantNS) && focus != "c09" {
 			return fail("nonsingular", "projection %s: NonSingularFields %v, want %v", p.ID, gotNS, wantNS)
 		}
 		for k := range wantNS {
-			if !gotNS[k] {
+			if !gotNS[k] && focus != "c09" {
 				return fail("nonsingular", "projection %s: NonSingularFields %v, want %v", p.ID, gotNS, wantNS)
 			}
 		}
@@ -416,4 +535,135 @@ func prIsGroupOnlyDiff(p prProj, flat []*benchproc.Field, a, b benchproc.Key) bo
 		}
 	}
 	return false
+}
+
+// ---------------------------------------------------------------- 'num' order beyond the model's values
+//
+// Projection.tla gives 'num' its meaning on a handful of strings (NumOf).  The rule itself -
+// numerically, SI and IEC suffixes understood - is applied here to numbers the model's
+// integers cannot hold: whole numbers of up to 25 digits on both sides of 2^53, 2^63 and 2^64,
+// the same magnitudes spelled with suffixes and exponents, and neighbours that differ in the
+// tenth to sixteenth significant digit.  The oracle is exact rational arithmetic on the
+// spelling; only pairs whose exact values differ by more than a float64 can blur (relative
+// 1e-14) are judged, so it demands nothing the statement does not.  Once per process.
+
+var prNumScaleDone bool
+
+func prExactNum(s string) (*big.Rat, bool) {
+	num := s
+	mult := big.NewRat(1, 1)
+	suffixes := []struct {
+		suf  string
+		base int64
+		exp  int
+	}{{"Ki", 1024, 1}, {"Mi", 1024, 2}, {"Gi", 1024, 3}, {"Ti", 1024, 4}, {"Pi", 1024, 5}, {"Ei", 1024, 6},
+		{"k", 1000, 1}, {"K", 1000, 1}, {"M", 1000, 2}, {"G", 1000, 3}, {"T", 1000, 4}, {"P", 1000, 5}, {"E", 1000, 6}, {"Z", 1000, 7}, {"Y", 1000, 8}}
+	t := strings.TrimSuffix(strings.TrimSuffix(num, "B"), "b")
+	for _, sf := range suffixes {
+		if strings.HasSuffix(t, sf.suf) {
+			num = strings.TrimSuffix(t, sf.suf)
+			m := new(big.Int).Exp(big.NewInt(sf.base), big.NewInt(int64(sf.exp)), nil)
+			mult.SetInt(m)
+			break
+		}
+	}
+	if num == "" || strings.Trim(num, "0123456789.") != "" && !strings.ContainsAny(num, "e") {
+		return nil, false
+	}
+	r, ok := new(big.Rat).SetString(num)
+	if !ok {
+		return nil, false
+	}
+	return r.Mul(r, mult), true
+}
+
+func prNumAtScale() Verdict {
+	var words []string
+	add := func(w ...string) { words = append(words, w...) }
+	two := big.NewInt(2)
+	for _, e := range []int64{10, 20, 30, 31, 32, 33, 40, 52, 53, 54, 62, 63, 64, 65, 70, 80} {
+		v := new(big.Int).Exp(two, big.NewInt(e), nil)
+		add(v.String(), new(big.Int).Add(v, big.NewInt(1)).String(), new(big.Int).Sub(v, big.NewInt(1)).String())
+		if e >= 33 {
+			add(new(big.Int).Add(v, big.NewInt(3000)).String(), new(big.Int).Sub(v, big.NewInt(70000)).String())
+		}
+	}
+	ten := big.NewInt(10)
+	for e := int64(9); e <= 24; e++ {
+		v := new(big.Int).Exp(ten, big.NewInt(e), nil)
+		add(v.String(), new(big.Int).Add(v, big.NewInt(7)).String(), new(big.Int).Sub(v, big.NewInt(3)).String())
+	}
+	add("18446744073709551615", "9223372036854775807", "9223372036854775808", "99999999999999999999", "1e19", "1e18", "2e19", "9.5e18",
+		"1Ki", "1Mi", "1Gi", "2048MiB", "4Gi", "1Ti", "16Ei", "8Ei", "1Pi", "1k", "1M", "1G", "3G", "1T", "1P", "1E", "10E", "1Z", "1Y", "2.5G", "1.5Gi",
+		"1", "2", "9", "10", "100", "0", "0.5", "1000", "1024", "1025", "999")
+	seen := map[string]bool{}
+	type item struct {
+		w string
+		r *big.Rat
+	}
+	var items []item
+	for _, w := range words {
+		if seen[w] {
+			continue
+		}
+		seen[w] = true
+		r, ok := prExactNum(w)
+		if !ok {
+			return fail("harness", "num-at-scale: no exact value for %q", w)
+		}
+		items = append(items, item{w, r})
+	}
+	var parser benchproc.ProjectionParser
+	proj, err := parser.Parse("c1@num", nil)
+	if err != nil {
+		return fail("parse-error", "Parse(c1@num): %v", err)
+	}
+	rng := rand.New(rand.NewSource(seed()*7 + 5))
+	perm := rng.Perm(len(items))
+	keys := make([]benchproc.Key, len(items))
+	for _, i := range perm {
+		res := &benchfmt.Result{Name: benchfmt.Name("N"), Iters: 1, Values: []benchfmt.Value{{Value: 1, Unit: "sec/op"}},
+			Config: []benchfmt.Config{{Key: "c1", Value: []byte(items[i].w), File: true}}}
+		keys[i] = proj.Project(res)
+	}
+	clear := func(a, b *big.Rat) bool {
+		// |a-b| > 1e-14 * max(|a|,|b|)
+		d := new(big.Rat).Sub(a, b)
+		d.Abs(d)
+		m := new(big.Rat).Abs(a)
+		if bb := new(big.Rat).Abs(b); bb.Cmp(m) > 0 {
+			m = bb
+		}
+		m.Mul(m, big.NewRat(1, 100000000000000))
+		return d.Cmp(m) > 0
+	}
+	for a := range items {
+		for b := range items {
+			if a == b || !clear(items[a].r, items[b].r) {
+				continue
+			}
+			want := items[a].r.Cmp(items[b].r) < 0
+			if got := keys[a].Less(keys[b]); got != want {
+				return fail("less-num-at-scale", "c1@num: (%s).Less(%s) = %v, but %s %s %s numerically", items[a].w, items[b].w, got, items[a].w, map[bool]string{true: "<", false: ">"}[want], items[b].w)
+			}
+		}
+	}
+	for rep := 0; rep < 6; rep++ {
+		sh := append([]benchproc.Key(nil), keys...)
+		rng.Shuffle(len(sh), func(i, j int) { sh[i], sh[j] = sh[j], sh[i] })
+		benchproc.SortKeys(sh)
+		idx := map[benchproc.Key]int{}
+		for i, k := range keys {
+			idx[k] = i
+		}
+		for i := 0; i+1 < len(sh); i++ {
+			for j := i + 1; j < len(sh); j++ {
+				a, b := idx[sh[i]], idx[sh[j]]
+				if clear(items[a].r, items[b].r) && items[a].r.Cmp(items[b].r) > 0 {
+					return fail("sortkeys-num-at-scale", "c1@num: SortKeys puts %s before %s", items[a].w, items[b].w)
+				}
+			}
+		}
+	}
+	return pass()
 }
